@@ -33,7 +33,7 @@ def nfraction_events(ctx, n):
 
 
 def run(ctx):
-    F.run_family_check(ctx, "C11", 120, 2000, mc=[("PipelineSM", "MC_PipelineSM_quick.cfg", "MC_PipelineSM.cfg")])
+    F.run_family_check(ctx, "C11", 200, 2000, mc=[("PipelineSM", "MC_PipelineSM_quick.cfg", "MC_PipelineSM.cfg")])
     ev = nfraction_events(ctx, 600 if ctx.quick else 20000)
     res = ctx.validate("Trace_Fn", "Trace_Fn.cfg", ev, tag="nfrac")
     for i, clauses in res.items():
